@@ -85,6 +85,7 @@ type Sched struct {
 	Replay    bool
 	Rng       *Rand
 	PreemptAt map[PKey]bool // generate mode: task-local yields at which to preempt
+	PreemptGlobal map[int]bool // generate mode: global yield indices at which to preempt whoever runs (reaches goroutines the library starts itself)
 	replayPre map[PKey]int  // replay mode: task-local yield -> task to switch to
 	replayOth []SchedDecision
 	othPos    int
@@ -92,6 +93,7 @@ type Sched struct {
 	MaxYields int // no preemptions after this many yields
 	AbortYields int // a library call that is still yielding after this many is unwound with ErrBudget
 	Overrun   bool
+	globalSync []uint32
 	MaxTasks  int // beyond this many tasks, go statements run inline
 	GoCalls   int
 	InlineGo  int
@@ -123,7 +125,7 @@ type readRec struct {
 }
 
 func NewSched(rng *Rand) *Sched {
-	return &Sched{Rng: rng, PreemptAt: map[PKey]bool{}, MaxYields: 5_000_000, MaxTasks: 192,
+	return &Sched{Rng: rng, PreemptAt: map[PKey]bool{}, PreemptGlobal: map[int]bool{}, MaxYields: 5_000_000, MaxTasks: 192,
 		vars: map[int]*varState{}, mutexes: map[any]*simMutex{}, onces: map[*sync.Once]*simOnce{}, wgs: map[*sync.WaitGroup]*simWG{}}
 }
 
@@ -313,6 +315,8 @@ func (s *Sched) yield(site int, class int) {
 			hit, key = true, k0
 		} else if class == 1 && s.PreemptAt[k1] {
 			hit, key = true, k1
+		} else if s.PreemptGlobal[n] {
+			hit, key = true, k0
 		}
 		if hit {
 			cands := s.runnable(t)
@@ -394,6 +398,13 @@ func Access(site, v, kind int) {
 		return
 	}
 	s.yield(site, 1)
+	if kind&2 != 0 {
+		// access inside a statement that performs an atomic / sync.Map / sync.Pool operation
+		s.cur.acquire(s.globalSync)
+		s.access(site, v, kind&1)
+		s.cur.release(&s.globalSync)
+		return
+	}
 	s.access(site, v, kind)
 }
 
@@ -406,8 +417,48 @@ func SyncOp(site int) {
 	if s := sched; s != nil && s.cur != nil {
 		s.cur.SyncOps++
 		s.yield(site, 1)
+		// atomics / sync.Map / sync.Pool operations are modelled as acquire+release of one
+		// global synchronisation object: more happens-before edges than the real thing, hence
+		// never a false race
+		s.cur.acquire(s.globalSync)
+		s.cur.release(&s.globalSync)
 	}
 }
+
+// Clock returns the task's own logical clock.
+func (t *Task) Clock() uint32 {
+	if t.ID < len(t.vc) {
+		return t.vc[t.ID]
+	}
+	return 0
+}
+
+// SyntheticWrite records a write to package variable v by task t that was observed through
+// a changed state hash rather than through an instrumented statement (a write through an
+// alias, a pointer or a method). clock is the task's clock at the START of the step in which
+// the change was seen - the earliest moment the write can have happened - so that a write
+// made inside a critical section is never reported as unordered.
+func (s *Sched) SyntheticWrite(t *Task, v int, clock uint32, site int) {
+	st := s.vars[v]
+	if st == nil {
+		st = &varState{reads: map[int]readRec{}}
+		s.vars[v] = st
+	}
+	if st.hasW && st.wTask != t.ID && !hb(st.wClock, st.wTask, t.vc) {
+		s.Races = append(s.Races, Race{Var: v, Kind: "W-W", TaskA: st.wTask, TaskB: t.ID, SiteA: st.wSite, SiteB: site, CallA: st.wCall, CallB: t.CallIdx})
+	}
+	for rt, rr := range st.reads {
+		if rt != t.ID && !hb(rr.clock, rt, t.vc) {
+			s.Races = append(s.Races, Race{Var: v, Kind: "R-W", TaskA: rt, TaskB: t.ID, SiteA: rr.site, SiteB: site, CallA: rr.call, CallB: t.CallIdx})
+		}
+	}
+	st.hasW = true
+	st.wTask, st.wSite, st.wCall, st.wClock = t.ID, site, t.CallIdx, clock
+	st.reads = map[int]readRec{}
+}
+
+// LastSite returns the site of the task's most recent yield.
+func (t *Task) LastSite() int { return t.lastSite }
 
 // CallDepth lets the harness mark the running task as inside (1) / outside (0) a library call.
 func CallDepth(d int) {
